@@ -246,7 +246,11 @@ macro_rules! impl_derivatives {
 
             #[inline]
             fn tanh(&self) -> Self {
-                self.sinh() / self.cosh()
+                let f0 = self.re.tanh();
+                let f1 = T::one() - f0.clone() * &f0;
+                second!($deriv, let f2 = f0.clone() * &f1 * F::from(-2.0).unwrap(););
+                third!($deriv, let f3 = (f0.clone() * &f0 * F::from(4.0).unwrap() - f1.clone() * F::from(2.0).unwrap()) * &f1;);
+                chain_rule!($deriv, Self::chain_rule(self, f0, f1, f2, f3))
             }
 
             #[inline]
